@@ -215,6 +215,8 @@ fn judge_format_timestamp(ctx: &Ctx, t: u64, st: &mut Stats) {
     let fmts: Vec<(&str, String)> = vec![
         ("%Y-%m-%d", format!("{:04}-{:02}-{:02}", c.year, c.month, c.day)), ("compact_date", cal::field("compact_date", t)), ("compact_datetime", cal::field("compact_datetime", t)),
         ("%H:%M:%S", format!("{:02}:{:02}:{:02}", c.hour, c.minute, c.second)), ("%j", format!("{:03}", c.yday + 1)), ("%y%m%d-%H", format!("{:02}{:02}{:02}-{:02}", c.year % 100, c.month, c.day, c.hour)),
+        // without a % directive a strftime format is literal text - also when it spells one of the schema's ts() tokens
+        ("YYYY", "YYYY".into()), ("MM", "MM".into()), ("0W", "0W".into()), ("YYYY0M0D", "YYYY0M0D".into()), ("HHmmSS", "HHmmSS".into()), ("date", "date".into()), ("YYYY-%m", format!("YYYY-{:02}", c.month)), ("%%Y", "%Y".into()),
     ];
     for (f, want) in fmts {
         st.inc("format_timestamp_calls");
